@@ -198,6 +198,9 @@ func EncodeCells(cells []Cell) string {
 		cursor = next.Style
 		bldr.WriteString(next.Grapheme)
 	}
+	if cursor.Hyperlink != "" {
+		_, _ = bldr.WriteString(tparm(osc8, "", ""))
+	}
 	empty := Style{}
 	if cursor != empty {
 		bldr.WriteString(sgrReset)
